@@ -67,6 +67,10 @@ class Spec:
 
     def _cases(self, tier, seed):
         n = self.quick if tier == "quick" else {k: (v * THOROUGH_SCALE if k != "k1" else v) for k, v in self.thorough.items()}
+        if tier != "quick" and self.level == "fault_enumeration" and "pairs" not in n and n.get("enum", 0) > 0:
+            n["pairs"] = 40  # two-crash enumeration on tiny programs
+        if tier == "quick" and self.level == "fault_enumeration" and "pairs" not in n and n.get("enum", 0) > 0:
+            n["pairs"] = 2
         base = seed * 100003
         i = 0
         if self.explicit:
@@ -74,6 +78,9 @@ class Spec:
                 yield c
         for j in range(n.get("enum", 0)):
             yield {"label": "crash-enum", "prog_seed": base + i, "gen": self.small_gen, "pattern": {"p": "crash_enum"}}
+            i += 1
+        for j in range(n.get("pairs", 0)):
+            yield {"label": "crash-pairs", "prog_seed": base + i, "gen": dict(self.small_gen, max_ops=3), "pattern": {"p": "crash_pairs"}}
             i += 1
         for j in range(n.get("plain", 0)):
             rng = random.Random(base + i)
@@ -182,6 +189,30 @@ class Spec:
                 sc1["crashes"] = [pt]
                 r = run_scenario(copy.deepcopy(sc1))
                 self.judge_one(acc, r, sc1, "enum", ref)
+        elif p == "crash_pairs":
+            # two crashes: every first crash point (capped), and for each the crash points of the invocations that follow it in THAT run
+            first = pts if len(pts) <= pat.get("max_first", 40) else rng.sample(pts, pat.get("max_first", 40))
+            n_pairs = 0
+            for pt in first:
+                if time.monotonic() - t_case > budget:
+                    acc.out["obs"]["cases_cut_short_by_time_budget"] = 1
+                    break
+                sc1 = copy.deepcopy(sc)
+                sc1["crashes"] = [pt]
+                r1 = run_scenario(copy.deepcopy(sc1))
+                self.judge_one(acc, r1, sc1, "enum", ref)
+                later = [q for q in W.crash_points(r1) if q["inv"] > pt["inv"]]
+                if len(later) > pat.get("max_second", 8):
+                    later = rng.sample(later, pat.get("max_second", 8))
+                for q in later:
+                    if time.monotonic() - t_case > budget:
+                        break
+                    sc2 = copy.deepcopy(sc)
+                    sc2["crashes"] = [pt, q]
+                    r2 = run_scenario(copy.deepcopy(sc2))
+                    self.judge_one(acc, r2, sc2, "enum2", ref)
+                    n_pairs += 1
+            acc.out["obs"]["crash_pairs_enumerated"] = n_pairs
         elif p == "crash_random":
             for _ in range(3):
                 sc1 = copy.deepcopy(sc)
@@ -211,5 +242,9 @@ class Spec:
         return acc.out
 
     def main(self, module):
-        rc = harness.main_for(module, self.prop, self.level, self.rule, ASSUME, self.minima)
+        generic = (" Generic slices of every world check with random programs: every third uninterrupted and every third random-crash run is served "
+                   "by one warm process (reused sandbox); perturbed schedules (random LINE-level yields, PCT-like thread priorities, after-sync "
+                   "descheduling)" + ("; two-crash enumeration (first crash x crash points of the following invocations) on tiny programs."
+                                      if self.level == "fault_enumeration" else "."))
+        rc = harness.main_for(module, self.prop, self.level, self.rule + generic, ASSUME, self.minima)
         sys.exit(rc)
